@@ -75,13 +75,20 @@ impl ErrorKind {
 /// (that statement is itself proved from the repository text of `with_wrap` in U16).
 pub trait ErrorExt: Sized {
     spec fn wrapped_of(self, inner: Self) -> bool;
-    fn wrap(self, context: &'static str) -> (r: Self) ensures r.wrapped_of(self);
+    fn wrap<S>(self, context: S) -> (r: Self) ensures r.wrapped_of(self);
     fn with_wrap_dropped(self) -> (r: Self) ensures r.wrapped_of(self);
 }
 impl ErrorExt for Error {
     open spec fn wrapped_of(self, inner: Error) -> bool { self.kind_spec() == inner.kind_spec() }
     #[verifier::external_body]
-    fn wrap(self, context: &'static str) -> (r: Self) { unimplemented!() }
+    fn wrap<S>(self, context: S) -> (r: Self) { unimplemented!() }
+    #[verifier::external_body]
+    fn with_wrap_dropped(self) -> (r: Self) { unimplemented!() }
+}
+impl ErrorExt for ErrorImpl {
+    open spec fn wrapped_of(self, inner: ErrorImpl) -> bool { self.kind_spec() == inner.kind_spec() }
+    #[verifier::external_body]
+    fn wrap<S>(self, context: S) -> (r: Self) { unimplemented!() }
     #[verifier::external_body]
     fn with_wrap_dropped(self) -> (r: Self) { unimplemented!() }
 }
@@ -94,7 +101,7 @@ impl<T> ErrorExt for Result<T, Error> {
         }
     }
     #[verifier::external_body]
-    fn wrap(self, context: &'static str) -> (r: Self) { unimplemented!() }
+    fn wrap<S>(self, context: S) -> (r: Self) { unimplemented!() }
     #[verifier::external_body]
     fn with_wrap_dropped(self) -> (r: Self) { unimplemented!() }
 }
@@ -107,7 +114,7 @@ impl<T> ErrorExt for Result<T, ErrorImpl> {
         }
     }
     #[verifier::external_body]
-    fn wrap(self, context: &'static str) -> (r: Self) { unimplemented!() }
+    fn wrap<S>(self, context: S) -> (r: Self) { unimplemented!() }
     #[verifier::external_body]
     fn with_wrap_dropped(self) -> (r: Self) { unimplemented!() }
 }
